@@ -128,7 +128,6 @@ class VSet(object):
 
 class SList(object):
     """List of symbolic length: len : Int, arr : Array(Int -> elem)."""
-    __slots__ = ('len', 'arr', 'ety', 'name')
 
     def __init__(self, length, arr, ety, name='l'):
         self.len = length
@@ -144,7 +143,6 @@ class SSet(object):
     """Symbolic set: characteristic array elem -> Bool.  `elems`, when not
     None, is a finite list of terms such that the set is exactly their
     collection (used to unroll iteration)."""
-    __slots__ = ('arr', 'ety', 'elems', 'name')
 
     def __init__(self, arr, ety, elems=None, name='s'):
         self.arr = arr
@@ -159,7 +157,6 @@ class SSet(object):
 class SMap(object):
     """Symbolic dict: dom : key -> Bool, val : key -> value.
     default: None | ('const', value) | ('nested', inner_kty, inner_vty, c)."""
-    __slots__ = ('dom', 'val', 'kty', 'vty', 'default', 'name')
 
     def __init__(self, dom, val, kty, vty, default=None, name='m'):
         self.dom = dom
